@@ -18,6 +18,7 @@ rng (all members are visited over the seeds), the thorough tier takes all of it.
   fam_rep_plain     (round 4) a repetition whose first hold repeats the plain level left right before it and whose body ends on
                     another plain level: only the plain-voltage part of the entry snapshot forces the unrolled first pass
   fam_direct        (round 4) the builder interface called directly: with_repetition(0), operator orders of SimpleExpression
+  fam_types         (round 4) numpy scalar / unsigned dtypes through the builder interface, shared template objects, hash-colliding keys
   fam_names         name coincidences: a swap mapping {i: j, j: i} around a hold, an index called like a channel, the identity
                     mapping of an index (m_i := i hands the shared scope object through under another name)
 """
@@ -397,6 +398,49 @@ def fam_direct(thorough):
     return out
 
 
+def _np(t, bits):
+    """the same tree with numpy scalar types everywhere (direct mode only): voltages float32 / uint8, SimpleExpression over float64 /
+    float32, repetition counts uint8 / uint64, range bounds int64 / int16 / int8"""
+    k = t['t']
+    if k == 'hold':
+        return {'t': 'hold', 'dur': t['dur'], 'v': {ch: dict(v, np=True) for ch, v in t['v'].items()}}
+    if k == 'seq':
+        return {'t': 'seq', 'l': [_np(x, bits) for x in t['l']]}
+    return dict(t, body=_np(t['body'], bits), np=bits)
+
+
+def fam_types(thorough):
+    """round 4 (classes named in the brief): numpy scalar / unsigned dtypes handed to the builder interface (counts as uint8 / uint64:
+    `count - 1` must not wrap; voltages float32 / uint8); the very same template OBJECT at several places of one tree (`share`);
+    dependency keys whose python hashes collide (hash(-1) == hash(-2): slopes -1e-9 and -2e-9 on one channel, bases far apart)."""
+    out = []
+    h = H(1, a=('1/4', {'i': '1/2'}), b=3)
+    p1, p2 = H(1, a='1/2', b=200), H(2, a='-3/2', b=7)
+    trees = [REP(1, SEQ(p1, p2)), REP(2, SEQ(p1, p2)), SEQ(p1, REP(3, SEQ(p1, p2))), IT('i', (0, 3, 1), SEQ(h, REP(2, h))),
+             REP(2, IT('i', (3, 0, -1), h)), SEQ(IT('i', (0, 3, 1), h), REP(2, IT('i', (0, 2, 1), H(1, a=('1', {'i': '1/2'}), b=0)))),
+             REP(255, p1) if thorough else REP(17, p1)]
+    for t in trees:
+        for bits in (8, 64):
+            out.append(dict(_run(_np(t, bits), ['a', 'b'], 'types'), direct=True))
+    # the same object several times among the children of a sequence / as body of two loops
+    hh = H(1, a=('0', {'i': '1/4'}), b='1/2')
+    pp = H(1, a='1/8', b='3/8')
+    for t in (SEQ(pp, pp, REP(2, SEQ(pp, H(2, a='1/4', b='-3/8'))), pp), IT('i', (0, 3, 1), SEQ(hh, hh, REP(2, hh))),
+              SEQ(IT('i', (0, 3, 1), hh), IT('i', (0, 3, 1), hh)), SEQ(REP(2, IT('i', (0, 2, 1), hh)), REP(2, IT('i', (0, 2, 1), hh))),
+              IT('j', (0, 2, 1), SEQ(IT('i', (0, 2, 1), H(1, a=('0', {'i': '1/4', 'j': '1'}), b='1/2')), IT('i', (0, 2, 1), H(1, a=('0', {'i': '1/4', 'j': '1'}), b='1/2'))))):
+        for chans in (['a', 'b'], ['b', 'a']):
+            out.append(dict(_run(t, chans, 'types'), share=True))
+            out.append(dict(_run(t, chans, 'types'), share=True, reuse=True))
+    # colliding hashes of dependency keys: DepKey((-1,)) and DepKey((-2,)) (and (-1, -2) / (-2, -1))
+    e = F(1, 10 ** 9)
+    for s1, s2 in ((-1, -2), (-2, -1), (1, -1)):
+        t = IT('i', (0, 4, 1), SEQ(H(1, a=('1', {'i': fs(s1 * e)})), H(1, a=('3', {'i': fs(s2 * e)})), H(1, a=('1', {'i': fs(s1 * e)}))))
+        out.append(dict(_run(t, ['a'], 'types'), exact=False))
+        t2 = IT('j', (0, 2, 1), IT('i', (0, 3, 1), SEQ(H(1, a=('1', {'j': fs(s1 * e), 'i': fs(s2 * e)})), H(1, a=('4', {'j': fs(s2 * e), 'i': fs(s1 * e)})))))
+        out.append(dict(_run(t2, ['a'], 'types'), exact=False))
+    return out
+
+
 def _first_idx(h):
     for v in h['v'].values():
         if v['k'] == 'aff':
@@ -407,9 +451,9 @@ def _first_idx(h):
 def families(rng, tier):
     thorough = tier != 'quick'
     out = []
-    strides = {'rep_entry': 8, 'equal_slope': 5, 'alias': 3, 'names': 2, 'scale': 3, 'single_pass': 4, 'rep_plain': 4, 'direct': 2}
+    strides = {'rep_entry': 8, 'equal_slope': 5, 'alias': 3, 'names': 2, 'scale': 3, 'single_pass': 4, 'rep_plain': 4, 'direct': 2, 'types': 1}
     for name, f in (('rep_entry', fam_rep_entry), ('equal_slope', fam_equal_slope), ('alias', fam_alias), ('names', fam_names),
-                    ('scale', fam_scale), ('single_pass', fam_single_pass), ('rep_plain', fam_rep_plain), ('direct', fam_direct)):
+                    ('scale', fam_scale), ('single_pass', fam_single_pass), ('rep_plain', fam_rep_plain), ('direct', fam_direct), ('types', fam_types)):
         cases = f(thorough)
         if not thorough:
             k = strides[name]
